@@ -7,7 +7,8 @@
  *     xdir   : directory to chdir into for extraction ("-": stay)
  *     failk  : fail the k-th allocation made inside library calls (0: none)
  *     flags  : letters: a = log allocation events, b = log bytes of reads, h = log header fields,
- *              s = extract to safe explicit names instead of NULL, w = count source work
+ *              s = extract to safe explicit names instead of NULL, w = count source work,
+ *              m = report live/peak heap bytes of the library (without logging every allocation)
  *     ops    : comma separated: N next, R<k> read, C check, X extract, P<policy> set policy,
  *              Q free reader+stream now (further ops are ignored), A<n> = repeat "N,R<n>*" to end
  * The content of <gtfile> (one JSON object, the ground truth for this execution) is copied to the
@@ -25,7 +26,7 @@
 #include "lib/lha_file_header.h"
 #include "alloc_shim.h"
 
-static int f_alloc, f_bytes, f_hdr, f_safe, f_work;
+static int f_alloc, f_bytes, f_hdr, f_safe, f_work, f_mem;
 
 /* ---------- identity of a header: hex of path + filename (all headers passed here are live) ---------- */
 static char idbuf[8][2100]; static int idrot;
@@ -97,7 +98,8 @@ static void hexs(const char *k, const char *s)
 static void tail(LHAReader *r)
 {
 	proj(r);
-	if (f_alloc) printf(",\"faults\":%ld,\"live\":%ld,\"files\":%ld", verif_failed_in_call, verif_live_bytes, verif_live_files);
+	if (f_alloc) printf(",\"faults\":%ld,\"files\":%ld", verif_failed_in_call, verif_live_files);
+	if (f_alloc || f_mem) printf(",\"live\":%ld,\"peak\":%ld", verif_live_bytes, verif_peak_bytes);
 	if (f_work) printf(",\"calls\":%lu,\"req\":%lu", src_calls, src_bytes);
 	printf("}\n");
 	verif_failed_in_call = 0;
@@ -138,7 +140,7 @@ int main(int argc, char **argv)
 			fprintf(stderr, "bad job: %s", line); return 2;
 		}
 		f_alloc = !!strchr(flags, 'a'); f_bytes = !!strchr(flags, 'b'); f_hdr = !!strchr(flags, 'h');
-		f_safe = !!strchr(flags, 's'); f_work = !!strchr(flags, 'w');
+		f_safe = !!strchr(flags, 's'); f_work = !!strchr(flags, 'w'); f_mem = !!strchr(flags, 'm');
 		/* Reset line */
 		if (strcmp(gt, "-")) {
 			FILE *g = fopen(gt, "r"); int c;
